@@ -129,7 +129,7 @@ def scenario_case(H, enums, year, res, idx, summ):
     txt = ['Module S%d.' % idx,
            'Definition vals : list (string * pv) := %s.' % gen_forms.clist(vals),
            'Definition inps : list (string * pv) := %s.' % gen_forms.clist(inps),
-           'Definition checks := %s.' % gen_forms.clist(checks),
+           'Definition checks : list (string * option string * string * expected * bool) := %s.' % gen_forms.clist(checks),
            'Definition bad := run_checks cat (tax_fn %d cfg) vals inps %s checks.' % (year, forms),
            'End S%d.' % idx,
            'Goal True. idtac "@@S %d". Abort.' % idx,
